@@ -5,9 +5,11 @@ case = {"cls": "ABM"|"DEVS", "script": [[tick, [act...]], ...], "fuel": n, "ops"
         false = simulator.setup(model) is never called: run calls must raise and change nothing)}
 times are integers counting 1/8 (S = 8); `fl` says whether the Python value handed to the simulator is a
 float (t/8) or an int (t//8, only when 8 | t).
-op  = ["sched", kind, t, fl, prio, tag, holder, body] | ["cancel", tag] | ["drop", holder]
+op  = ["reset"] | ["setup"] (life cycle: Simulator.reset(), setup(<a new model>)) |
+      ["sched", kind, t, fl, prio, tag, holder, body] | ["cancel", tag] | ["drop", holder]
     | ["until", t, fl] | ["for", d, fl] | ["next"] | ["peek", n]
-act = ["sched", ...same...] | ["cancel", tag] | ["drop", holder]
+act = ["sched", ...same...] | ["cancel", tag] | ["drop", holder] | ["raise"] (the user callable raises; only in cases
+      marked "exc": true, which are judged by the oracle alone)
 kind in now|rel|abs|tick, prio in L|D|H.  Tags are unique per case; model.step events show as tag -1.
 
 User code: an event's callable is the bound method `fire` of a Holder object (even holder ids; WeakMethod) or a plain
@@ -28,6 +30,13 @@ S = 8
 R_OK, R_PAST, R_UNIT, R_SKIP = 0, 1, 2, 5
 E_EMPTY = 3
 E_NOSETUP = 4
+E_SETUP_TIME = 5
+E_SETUP_EVENTS = 6
+E_USER = 7
+
+
+class UserBoom(Exception):
+    """raised by the user code of an event / of model.step (act ["raise"])"""
 PVAL = {"L": 10, "D": 5, "H": 1}
 PNAME = {"L": "PLow", "D": "PDefault", "H": "PHigh"}
 KNAME = {"now": "KNow", "rel": "KRel", "abs": "KAbs", "tick": "KTick"}
@@ -117,6 +126,7 @@ class _Env:
 
         self.Holder = Holder
         self.make_fn = make_fn
+        self.Model = M
         self.sim = ABMSimulator() if self.abm else DEVSimulator()
         self.model = M()
         self.is_setup = bool(case.get("setup", True))
@@ -136,6 +146,8 @@ class _Env:
                 self.do_cancel(a[1])
             elif a[0] == "drop":
                 self.do_drop(a[1])
+            elif a[0] == "raise":
+                raise UserBoom()
 
     def do_sched(self, kind, t, fl, prio, tag, h, body):
         if h in self.dropped:
@@ -228,6 +240,9 @@ class _Env:
                 else:
                     self.sim.run_next_event()
                 ob = [0] + self.view(self.log)
+            except UserBoom:
+                info["userexc"] = True
+                ob = [-1, E_USER] + self.view(self.log)
             except Exception as e:  # noqa: BLE001
                 if not self.is_setup and "has not been setup" in str(e):
                     info["nosetup"] = True
@@ -245,6 +260,24 @@ class _Env:
             except IndexError:
                 info["peek"] = None
                 ob = [-1, E_EMPTY]
+        elif k == "reset":
+            self.sim.reset()
+            self.is_setup = False
+            ob = [0] + self.view([])
+        elif k == "setup":
+            new_model = self.Model()
+            info["n_events_before"] = len(self.sim.event_list._events)
+            try:
+                self.sim.setup(new_model)
+                self.model = new_model
+                self.is_setup = True
+                info["setup"] = 0
+                ob = [0] + self.view([])
+            except ValueError as e:
+                msg = str(e)
+                code = E_SETUP_TIME if "not equal to start_time" in msg else E_SETUP_EVENTS if "already been scheduled" in msg else 99
+                info["setup"] = code
+                ob = [-1, code]
         else:
             raise ValueError(k)
         if HEAP_TIE:
@@ -308,7 +341,7 @@ def oracle(case, recs):
     """recs = [(obs, info)] per op.  Returns the failures of the first op that violates a statement."""
     cls = CLS[case["cls"]]
     abm = case["cls"] == "ABM"
-    is_setup = bool(case.get("setup", True))
+    is_setup = bool(case.get("setup", True))      # becomes False at reset(), True at a successful setup()
     sh = _Shadow(abm, is_setup)
     fails = []
     script = {int(k): v for k, v in case.get("script", [])}
@@ -365,8 +398,12 @@ def oracle(case, recs):
                         e["cancelled"] = True
             elif a[0] == "drop":
                 sh.dead.add(a[1])
+            elif a[0] == "raise":
+                aborted[0] = True       # the user callable raises here: the rest of its body never runs
+                return pos
         return pos
 
+    aborted = [False]
     for i, (op, (ob, info)) in enumerate(zip(case["ops"], recs)):
         k = op[0]
         before, after = info["before"], info["after"]
@@ -395,6 +432,26 @@ def oracle(case, recs):
                     e["cancelled"] = True
         elif k == "drop":
             sh.dead.add(op[1])
+        elif k == "reset":
+            sh.pend = []
+            is_setup = False
+            if after[0] != 0 or after[2] or info["n_events"]:
+                fail(f"C14/{cls}/reset/not-back-to-start", i, f"after reset(): clock {_d(after[0])}, pending {after[2]}, {info['n_events']} entries in the event list")
+                break
+        elif k == "setup":
+            want = E_SETUP_TIME if before[0] != 0 else E_SETUP_EVENTS if info["n_events_before"] else 0
+            if info["setup"] != want:
+                fail(f"C14/{cls}/setup/wrong-outcome", i, f"setup() at clock {_d(before[0])} with {info['n_events_before']} entries in the event list: outcome {info['setup']}, expected {want} (0 = accepted, 5 = time, 6 = events)")
+                break
+            if want and after != before:
+                fail(f"C18/devs/setup-rejected", i, f"setup() raised but changed the simulator: {before} -> {after}")
+                fail(f"C14/{cls}/setup/raised-but-changed-state", i, f"setup() raised but changed the simulator: {before} -> {after}")
+                break
+            if not want:
+                is_setup = True
+                sh.nsteps = 0          # a new model
+                if abm:
+                    sh.add_step(S)
         elif k in ("until", "for", "next") and not is_setup:
             if not info.get("nosetup"):
                 fail(f"C14/{cls}/{k}/ran-without-setup", i, f"{op} did not raise although setup(model) was never called")
@@ -418,7 +475,8 @@ def oracle(case, recs):
             pos = 0
             prev = now0
             nexec = 0
-            while pos < len(log) and not fails:
+            aborted[0] = False
+            while pos < len(log) and not fails and not aborted[0]:
                 it = log[pos]
                 if it[0] == 0 or it[0] == 3:
                     is_step = it[0] == 3
@@ -500,7 +558,19 @@ def oracle(case, recs):
             if fails:
                 break
             clk_after = after[0]
-            if k in ("until", "for") and in_q:
+            if aborted[0] or info.get("userexc"):
+                # an exception escaped from a user callable: the run call must propagate it, the event that raised is
+                # consumed, the clock stays at its time, nothing else is touched (checked below: pending, steps)
+                if not info.get("userexc"):
+                    fail(f"C14/{cls}/{k}/user-exception-swallowed", i, f"{op}: the user callable raised but the call returned normally")
+                    break
+                if not aborted[0] or pos != len(log):
+                    fail(f"C14/{cls}/{k}/continued-after-user-exception", i, f"{op}: user code raised, yet the log goes on: {log[pos:]}")
+                    break
+                if clk_after != prev:
+                    fail(f"C14/{cls}/clock/after-user-exception", i, f"{op}: the callable raised at {_d(prev)}, the clock is left at {_d(clk_after)}")
+                    break
+            elif k in ("until", "for") and in_q:
                 if clk_after != horizon:
                     fail(f"C14/{cls}/run_until/clock-not-at-horizon", i, f"after {op} from {_d(now0)} the clock is {_d(clk_after)}, not {_d(horizon)}")
                     break
@@ -543,7 +613,7 @@ def oracle(case, recs):
                 if steps != sh.nsteps:
                     fail(f"C15/{cls}/step/steps-differ-from-step-calls", i, f"model.steps = {steps}, model.step ran {sh.nsteps} times")
                     break
-                if k in ("until", "for") and steps * S != clk_after:
+                if k in ("until", "for") and not info.get("userexc") and steps * S != clk_after:
                     fail(f"C15/{cls}/{'run_until' if k == 'until' else 'run_for'}/steps-differ-from-clock", i, f"after {op}: model.steps = {steps}, clock = {_d(clk_after)}")
                     break
                 if k == "next" and not (clk_after - S <= steps * S <= clk_after):
@@ -591,8 +661,6 @@ def chunk_oracle(case, recs):
     cls = CLS[case["cls"]]
     abm = case["cls"] == "ABM"
     ops = case["ops"]
-    if not case.get("setup", True):
-        return []
     merged = []
     groups = []         # (index in merged, [indices in ops])
     i = 0
@@ -613,7 +681,7 @@ def chunk_oracle(case, recs):
             T = recs[m][1]["after"][0]
             for x in range(i, m + 1):
                 b4, aft = recs[x][1]["before"][0], recs[x][1]["after"][0]
-                if "exc" in recs[x][1] or aft < b4 or aft > T:
+                if "exc" in recs[x][1] or recs[x][1].get("nosetup") or recs[x][1].get("userexc") or aft < b4 or aft > T:
                     ok = False
                 if ops[x][0] == "until" and (ops[x][1] < b4 or aft != ops[x][1]):
                     ok = False
@@ -659,6 +727,8 @@ def run_impl(case):
             fails.append({"key": f"C15/{CLS[case['cls']]}/chunking/one-piece-run-raised", "op": -1, "what": f"{type(e).__name__}: {e}"})
         if _MODE["float"]:
             return {"obs": [[_obs_int(x) for x in ob] for ob, _ in recs], "failures": fails, "model": False}
+        if case.get("exc"):
+            return {"obs": [ob for ob, _ in recs], "failures": fails, "model": False}
         return {"obs": [ob for ob, _ in recs], "failures": fails}
     finally:
         _MODE["float"] = False
@@ -691,13 +761,21 @@ def coq_op(op):
     return f"OPeek {L.z(op[1])}"
 
 
+def coq_xop(op):
+    if op[0] == "reset":
+        return "XReset"
+    if op[0] == "setup":
+        return "XSetup"
+    return f"XOp ({coq_op(op)})"
+
+
 def coq_case(case):
-    if case.get("float"):       # never evaluated by the model; only printed if a replay file asks for model observations
-        return "{| c_cfg := {| c_abm := false; c_script := [] |}; c_setup := true; c_fuel := 1%nat; c_ops := [] |}"
+    if case.get("float") or case.get("exc"):   # never evaluated by the model; only printed if a replay file asks for model observations
+        return "{| x_cfg := {| c_abm := false; c_script := [] |}; x_setup := true; x_fuel := 1%nat; x_ops := [] |}"
     script = L.lst([L.pair(L.z(k), L.lst([coq_act(a) for a in acts])) for k, acts in case.get("script", [])])
     cfg = f"{{| c_abm := {L.b(case['cls'] == 'ABM')}; c_script := {script} |}}"
-    return (f"{{| c_cfg := {cfg}; c_setup := {L.b(case.get('setup', True))}; c_fuel := {int(case.get('fuel', 300))}%nat; "
-            f"c_ops := {L.lst([coq_op(o) for o in case['ops']])} |}}")
+    return (f"{{| x_cfg := {cfg}; x_setup := {L.b(case.get('setup', True))}; x_fuel := {int(case.get('fuel', 300))}%nat; "
+            f"x_ops := {L.lst([coq_xop(o) for o in case['ops']])} |}}")
 
 
 def op_kinds(case):
